@@ -531,6 +531,11 @@ def gen_invocation(rng, world_state):
             item = "\\" + item
         step["spec"] = spec
         step["argv"] = assemble(rng, [item], groups)
+        if rng.random() < 0.2:
+            # ITEM: "Time point, duration or recurrence string.  To read
+            # from stdin use '-'"
+            step["stdin"] = spec["text"] + rng.choice(["", "\n"])
+            step["argv"] = assemble(rng, ["-"], groups)
         return step
     if kind == "rec":
         if rng.random() < 0.3:
@@ -603,8 +608,13 @@ def gen_invocation(rng, world_state):
         step["spec"] = spec
         step["rec_groups"] = groups
         step["argv"] = None   # assembled at execution for form 1
+        if rng.random() < 0.2:
+            step["rec_stdin"] = True
         if form != 1:
             step["argv"] = assemble(rng, [spec["text"]], groups)
+            if step.get("rec_stdin"):
+                step["stdin"] = spec["text"] + rng.choice(["", "\n"])
+                step["argv"] = assemble(rng, ["-"], groups)
         return step
     # malformed argument in some slot
     base = gen_invocation_valid_for_mutation(rng, mode, utc, cal_opt)
@@ -616,7 +626,13 @@ def gen_invocation(rng, world_state):
     return step
 
 
-MUT_CHARS = "TZ:+-,.W/PRx0 9%٣é−\\="
+MUT_CHARS = "TZ:+-,.W/PRx0 9%٣é−\\=()s"
+PARSE_FORMAT_SAMPLES = [
+    ("%Y-%m-%dT%H:%M:%S", "2000-01-01T00:00:00"),
+    ("%d/%m/%Y %H:%M", "28/02/2001 12:30"), ("%s", "951782400"),
+    ("%Y%j", "2000060"), ("%Y-%m-%dT%H:%M:%S%z", "2000-01-01T00:00:00+0530"),
+    ("%a %b %d %H:%M:%S %Y", "Tue Feb 29 12:00:00 2000"),
+    ("%Y%m%dT%H%M", "20000229T1230")]
 
 
 def mutate(rng, text):
@@ -645,7 +661,8 @@ def gen_invocation_valid_for_mutation(rng, mode, utc, cal_opt):
     n2 = gen_notation(rng)
     ptext2 = written_text(n2, gen_written(rng, mode, n2, p_invalid=0))
     shape = rng.choice(["point", "point_off", "diff", "rec", "total", "max",
-                        "pf", "two_off", "ref", "stdin", "bigexp"])
+                        "pf", "pf", "pfmt", "two_off", "ref", "stdin",
+                        "bigexp"])
     opts = []
     if utc:
         opts.append("--utc")
@@ -678,7 +695,16 @@ def gen_invocation_valid_for_mutation(rng, mode, utc, cal_opt):
     if shape == "max":
         return ["R/%s/P1D" % ptext, "--max=" + mutate(rng, "10")] + opts, "max"
     if shape == "pf":
-        return [ptext, "-f", mutate(rng, notation_format(n2))] + opts, "pf"
+        fmt = notation_format(n2) if rng.random() < 0.6 else rng.choice(
+            STRF_FORMATS + FALLBACK_STRF)
+        return [ptext, "-f", mutate(rng, fmt)] + opts, "pf"
+    if shape == "pfmt":
+        fmt, text = rng.choice(PARSE_FORMAT_SAMPLES)
+        if rng.random() < 0.3:
+            fmt = fmt + fmt[-2:]        # a directive given twice
+        else:
+            fmt = mutate(rng, fmt)
+        return [text, rng.choice(["-p", "--parse-format"]), fmt] + opts, "pfmt"
     if shape == "ref":
         return ["ref", "--ref=" + mutate(rng, ptext)] + opts, "ref"
     if shape == "stdin":
@@ -765,9 +791,12 @@ def rec_step(rng, pf, mode, cal_opt, env_cal):
             "utc": False, "cal": cal_opt, "text": text, "pf": pf}
     groups = common_options(rng, spec, None)
     groups.append(["-f", pf.get("text") or pf["strf"]])
-    return {"k": "inv", "env": {"cal": env_cal, "ref": None}, "stdin": None,
+    via_stdin = rng.random() < 0.3
+    return {"k": "inv", "env": {"cal": env_cal, "ref": None},
+            "stdin": text + "\n" if via_stdin else None,
             "entry": rng.choice(["argv", "sys.argv"]), "spec": spec,
-            "rec_groups": groups, "argv": assemble(rng, [text], groups)}
+            "rec_groups": groups,
+            "argv": assemble(rng, ["-" if via_stdin else text], groups)}
 
 
 NOTATIONS_PER_TRACE = 10
@@ -1140,6 +1169,7 @@ class Sim(object):
         if status.startswith("raise:") and not env_garbage:
             self.violate("traceback", kind, step_no, argv=argv,
                          stdin=step.get("stdin"), status=status[:300],
+                         where=status.rsplit(" @", 1)[-1],
                          slot=spec.get("slot"))
             return
         if env_garbage:
@@ -1447,6 +1477,9 @@ class Sim(object):
         spec = dict(spec, text="%s/%s/%s" % (rp, written_text(n, w), second))
         step["spec_text"] = spec["text"]
         argv = [spec["text"]]
+        if step.get("rec_stdin"):
+            step["stdin"] = spec["text"] + "\n"
+            argv = ["-"]
         for g in step["rec_groups"]:
             argv += g
         return argv
@@ -1661,7 +1694,10 @@ class Sim(object):
                     pass
                 self.host_mode = step["sp"]
             elif act == "scratch_cal":
-                data.Calendar().set_mode(step["sp"])
+                cal = data.Calendar()
+                cal.set_mode(step["sp"])
+                if cal is data.Calendar.default():
+                    self.host_mode = step["sp"]
             else:
                 world.clear_caches()
 
